@@ -11,10 +11,12 @@ import (
 	"github.com/cockroachdb/errors"
 	"github.com/cockroachdb/errors/barriers"
 	"github.com/cockroachdb/errors/domains"
+	"github.com/cockroachdb/errors/errbase"
 	"github.com/cockroachdb/errors/errorspb"
 	"github.com/cockroachdb/errors/extgrpc"
 	"github.com/cockroachdb/errors/exthttp"
 	libstatus "github.com/cockroachdb/errors/grpc/status"
+	"github.com/cockroachdb/errors/join"
 	"github.com/cockroachdb/logtags"
 	"github.com/cockroachdb/redact"
 	gogostatus "github.com/gogo/status"
@@ -196,7 +198,9 @@ func (b *Built) build(s *Spec) (res error) {
 	case "telemetry":
 		return errors.WithTelemetry(c, s.S...)
 	case "domain":
-		return errors.WithDomain(c, errors.NamedDomain(S(0)))
+		return errors.WithDomain(c, DomainOf(s))
+	case "stackn":
+		return stackWithFrames(c, s.I[0])
 	case "issuelink":
 		return errors.WithIssueLink(c, errors.IssueLink{IssueURL: S(0), Detail: S(1)})
 	case "tags":
@@ -266,6 +270,8 @@ func (b *Built) build(s *Spec) (res error) {
 		return os.NewSyscallError(S(0), c)
 	case "netop":
 		return &net.OpError{Op: S(0), Net: S(1), Addr: unixAddr(S(2)), Err: c}
+	case "netopsrc":
+		return &net.OpError{Op: S(0), Net: S(1), Source: unixAddr(S(2)), Addr: unixAddr(S(3)), Err: c}
 	case "dnswrap":
 		return &net.DNSError{Err: S(0), Name: S(1), UnwrapErr: c}
 	case "pkgmsg":
@@ -306,6 +312,8 @@ func (b *Built) build(s *Spec) (res error) {
 	// multi
 	case "join":
 		return errors.Join(joinArgs(s.I[0], xs)...)
+	case "subjoin":
+		return join.Join(joinArgs(s.I[0], xs)...)
 	case "gojoin":
 		return goErr.Join(joinArgs(s.I[0], xs)...)
 	case "goerrorfmulti":
@@ -320,6 +328,38 @@ func (b *Built) build(s *Spec) (res error) {
 		return &UMultiAs{S(0), xs, &ULeafPtr{"as:" + S(0)}}
 	case "umulticauser":
 		return &UMultiCauser{S(0), xs}
+	case "umultiis":
+		return &UMultiIs{S(0), xs, S(1)}
 	}
 	panic("unknown kind " + s.K)
+}
+
+// DomainOf is the domain given to WithDomain by a "domain" node.
+func DomainOf(s *Spec) errors.Domain {
+	if len(s.I) > 0 {
+		switch s.I[0] {
+		case 1:
+			return errors.NoDomain
+		case 2:
+			return errors.Domain("")
+		}
+	}
+	return errors.NamedDomain(s.S[0])
+}
+
+// stackWithFrames annotates c with a stack trace of exactly n frames
+// (the outermost n frames of the current goroutine): the depth is
+// found by trial.
+func stackWithFrames(c error, n int) error {
+	for d := 0; d < 200; d++ {
+		e := errors.WithStackDepth(c, d)
+		st, ok := e.(interface{ StackTrace() errbase.StackTrace })
+		if !ok {
+			panic("stackWithFrames: WithStackDepth does not return a stack trace provider")
+		}
+		if len(st.StackTrace()) == n {
+			return e
+		}
+	}
+	panic("stackWithFrames: no depth leaves the wanted number of frames")
 }
